@@ -199,16 +199,19 @@ Theorem bonded_edges_copy fd meta m1 fg1 legacy aa m2 fg2 : tmpl_dict fd -> reso
   exists cf : Z -> Z,
     (forall a b, In a (node_keys frag) -> In b (node_keys frag) -> cf a = cf b -> a = b) /\
     (forall n, In n frag -> node_get m2 (cf (nk n)) (S "fragid") = Some (VList [VInt (nk mn)]) /\
-                            node_get m2 (cf (nk n)) (S "mapping") = Some (mapping_val name (nk n))) /\
+                            node_get m2 (cf (nk n)) (S "mapping") = Some (mapping_val name (nk n)) /\
+                            forall key, key <> S "fragid" -> key <> S "mapping" -> key <> S "ez_isomer_atoms" -> key <> S "hcount" ->
+                                        node_get m2 (cf (nk n)) key = aget key (na n)) /\
     (forall a b, In a (node_keys frag) -> In b (node_keys frag) -> edge_attrs m2 (cf a) (cf b) = tmpl_edge frag a b).
 Proof.
   intros Hd H1 H2 Hwe pre mn post fv name frag Em Hf Hl.
   destruct (disconnected_edges_copy fd meta m1 fg1 Hd H1 pre mn post fv name frag Em Hf Hl) as (cf & Inj & Hnodes & Hedges).
   exists cf. split; [exact Inj|]. split.
-  - intros n Hn. destruct (Hnodes n Hn) as [A B].
+  - intros n Hn. destruct (Hnodes n Hn) as [A [B Ck]].
     assert (S "fragid" <> S "hcount") as N1 by (intros X; apply str_eqb_eq in X; vm_compute in X; discriminate).
     assert (S "mapping" <> S "hcount") as N2 by (intros X; apply str_eqb_eq in X; vm_compute in X; discriminate).
-    rewrite (bonding_node_get _ _ _ _ _ _ _ _ _ N1 H2), (bonding_node_get _ _ _ _ _ _ _ _ _ N2 H2). auto.
+    rewrite (bonding_node_get _ _ _ _ _ _ _ _ _ N1 H2), (bonding_node_get _ _ _ _ _ _ _ _ _ N2 H2). split; [exact A|]. split; [exact B|].
+    intros key K1 K2 K3 K4. rewrite (bonding_node_get _ _ _ _ _ _ _ _ _ K4 H2). now apply Ck.
   - intros a b Ha Hb. destruct (bonding_keeps_edges _ _ _ _ _ _ _ H2) as (s1 & bonds & Hb0 & Hkeep). rewrite Hkeep; [now apply Hedges|].
     intros bd Hbd. unfold bonds_of in Hb0. destruct (base_edges meta) as [es|] eqn:Ees; cbn [bind] in Hb0; [|discriminate Hb0].
     destruct (tables_of fg1) as [s0|] eqn:Et; cbn [bind] in Hb0; [|discriminate Hb0].
@@ -234,7 +237,9 @@ Corollary step_bonded_edges_copy legacy aa fd prev car fo : tmpl_dict fd -> reso
   exists cf : Z -> Z,
     (forall a b, In a (node_keys frag) -> In b (node_keys frag) -> cf a = cf b -> a = b) /\
     (forall n, In n frag -> node_get (fo_m2 fo) (cf (nk n)) (S "fragid") = Some (VList [VInt (nk mn)]) /\
-                            node_get (fo_m2 fo) (cf (nk n)) (S "mapping") = Some (mapping_val name (nk n))) /\
+                            node_get (fo_m2 fo) (cf (nk n)) (S "mapping") = Some (mapping_val name (nk n)) /\
+                            forall key, key <> S "fragid" -> key <> S "mapping" -> key <> S "ez_isomer_atoms" -> key <> S "hcount" ->
+                                        node_get (fo_m2 fo) (cf (nk n)) key = aget key (na n)) /\
     (forall a b, In a (node_keys frag) -> In b (node_keys frag) -> edge_attrs (fo_m2 fo) (cf a) (cf b) = tmpl_edge frag a b).
 Proof.
   intros Hd H. unfold resolve_step_full in H. cbv zeta in H.
